@@ -415,7 +415,7 @@ def corpus_cases():
 
 def run(ctx):
     N = Names()
-    n_cases = ctx.n(400, 6000)
+    n_cases = ctx.n(800, 6000)
     cases = corpus_cases() + [gen_case(ctx.rng, 0) for _ in range(n_cases)]
     batch = CoqBatch("C06", ["Base", "Rename", "CheckLib"], shard=400, preamble=PREAMBLE)
     seen, nontrivial = set(), set()
